@@ -1,7 +1,8 @@
 // Package c10 checks property C10: tag filtering through the index equals evaluating the
 // predicate on every series, in every index state (memory, prepared, flushed, compacted, mixed),
 // including lookups and writes that run inside a flush / compaction and flushes that run inside a
-// lookup, at harness-owned points (nested_test.go).
+// lookup, at harness-owned points (nested_test.go), and with series ids placed across roaring container
+// boundaries (idplan_test.go; dense form with > 65536 real series: big_test.go, thorough tier).
 package c10
 
 import (
@@ -841,6 +842,7 @@ func (w *world) checkpoint(conds []*condCase, round int, stats *caseStats) {
 	if w.dictCompactedVisible {
 		stats.classes["state_compacted_dictionary_read"] = true
 	}
+	w.recordIDPlanCheckpoint(st, stats)
 	for i, cc := range conds {
 		w.checkCond(cc, st, round+i, stats)
 	}
@@ -851,6 +853,11 @@ func runCase(t *rapid.T, group string, shards []models.ShardID, leaves int) {
 	plans := genMetricPlans(t)
 	n := rapid.SampledFrom([]int{5, 8, 12, 20, 20, 30, 30, 45, 60, 60, 90, 140, 200}).Draw(t, "nSeries")
 	all := genSeries(t, plans, shards, n)
+	// a quarter of the cases: series ids across roaring container boundaries (idplan_test.go)
+	idPlans := 0
+	if rapid.IntRange(0, 3).Draw(t, "idPlan") == 0 {
+		idPlans = planSeriesIDs(t, all)
+	}
 	nBatches := rapid.SampledFrom([]int{1, 2, 2, 3, 3, 3, 4, 4, 5}).Draw(t, "nBatches")
 	if nBatches > n {
 		nBatches = n
@@ -933,6 +940,7 @@ func runCase(t *rapid.T, group string, shards []models.ShardID, leaves int) {
 		case stCompact:
 			mask := s.PickMask
 			runNested(s, func() { w.compact(func(i int) bool { return mask&(1<<(uint(i)%32)) != 0 }, s.DelObs) })
+			w.recordIDPlanCompaction(stats)
 		case stReopen:
 			w.reopen()
 		case stLookupFlush:
@@ -962,9 +970,18 @@ func runCase(t *rapid.T, group string, shards []models.ShardID, leaves int) {
 	if len(shards) > 1 {
 		stats.classes[fmt.Sprintf("shards_%d_leaves_%d", len(shards), leaves)] = true
 	}
+	if idPlans > 0 {
+		stats.classes["idplan_case"] = true
+		if len(w.planned) > 0 {
+			stats.classes[fmt.Sprintf("idplan_series_ids_in_%d_containers", w.containersOf(-1))] = true
+		}
+		if w.idJumpsDropped > 0 {
+			stats.classes["idplan_jump_dropped_sequence_already_beyond"] = true
+		}
+	}
 	var canon strings.Builder
 	for _, s := range all {
-		fmt.Fprintf(&canon, "%s/%d/%v|", s.Metric, s.Shard, s.Tags)
+		fmt.Fprintf(&canon, "%s/%d/%v/%d|", s.Metric, s.Shard, s.Tags, s.Jump)
 	}
 	var condTexts []string
 	for _, cc := range conds {
